@@ -16,6 +16,9 @@ FAMILIES = {
     'mono': [[64, 0, -20], [0, 81, 0], [-20, 0, 100]],
     'tric': [[64, 16, 12], [16, 81, -18], [12, -18, 100]],
     'tric2': [[49, 21, 14], [21, 64, 24], [14, 24, 81]],
+    # strongly sheared: a = (16,0,0), b = (8,6,0) (gamma = 36.9 deg), c = (0,0,14); the component-wise rounded image is often not
+    # the nearest one here
+    'shear': [[256, 128, 0], [128, 100, 0], [0, 0, 196]],
 }
 ORTHO_FAMILIES = ('cubic', 'ortho')
 
@@ -66,11 +69,39 @@ def perp_widths(G):
     return [1.0 / math.sqrt(Ginv[i, i]) for i in range(3)], vol
 
 
+_RANGE_CACHE = {}
+
+
+def _needed_range(G, N=24, big=4):
+    """Largest |shift| used by a nearest image of any centred grid vector (brute force over {-big..big}^3 shifts)."""
+    Gm = np.array(G)
+    shifts = np.array(list(itertools.product(range(-big, big + 1), repeat=3)))
+    ks = np.array(list(itertools.product(range(-N // 2, N // 2 + 1), repeat=3)))
+    worst = 0
+    for i in range(0, len(ks), 512):
+        v = ks[i:i + 512, None, :] + N * shifts[None, :, :]
+        q = np.einsum('abi,ij,abj->ab', v, Gm, v)
+        mins = q == q.min(axis=1, keepdims=True)
+        size = np.abs(shifts).max(axis=1)[None, :]
+        worst = max(worst, int(np.where(mins, size, 99).min(axis=1).max()))
+    return worst
+
+
 def image_range(G) -> int:
-    """R such that the minimum-image representative of any centred vector lies in {-R..R}^3 shifts."""
+    """R such that the minimum-image representative of any centred vector lies in {-R..R}^3 shifts.
+
+    The analytic bound ceil((|a|+|b|+|c|) / (2 w_min)) is safe but loose for sheared cells; when it exceeds 2 the range actually
+    needed is measured by brute force on a /24 grid (shifts up to 4) and one more shell is added as a safety margin."""
+    key = tuple(map(tuple, G))
+    if key in _RANGE_CACHE:
+        return _RANGE_CACHE[key]
     w, _ = perp_widths(G)
     lens = [math.sqrt(G[i][i]) for i in range(3)]
-    return max(1, math.ceil(sum(lens) / (2 * min(w)) - 1e-9))
+    R = max(1, math.ceil(sum(lens) / (2 * min(w)) - 1e-9))
+    if R > 2:
+        R = min(R, _needed_range(G) + 1)
+    _RANGE_CACHE[key] = R
+    return R
 
 
 def norm_sq(G, k):
